@@ -303,6 +303,11 @@ class Emitter:
             opts["loops"] = {}; opts["anchors"] = []; opts["closures"] = {}
             rec.mode = "demoted"; rec.demoted = True
             opts["drop_body"] = True
+        if rec.mode == "assumed" and opts["sig"] is None and not opts.get("cut"):
+            # a function ASSUMED in Verus (external_body) is never looked into by the verifier, but rustc still
+            # type-checks its body inside the unit: a change there (new import, new helper) would turn the
+            # whole unit into a tool error.  Only signature + contract are emitted; its Kani stand-ins decide it.
+            opts["drop_body"] = True
         if it.body_open is None:
             raise EmitError("fn %s has no body" % rec.qname)
         in_trait_impl = opts["nopub"]
@@ -428,6 +433,18 @@ class Emitter:
         for a in opts["anchors"]:
             pat = [t.text for t in tokenize(a["anchor"])]
             hits = _find_subseq(toks, body_lo, end, pat)
+            if not hits and "let" in pat:
+                # `let x =` became `let mut x =` (or the reverse): same statement, the hint still belongs there
+                alt = []
+                for i, tk in enumerate(pat):
+                    if tk == "mut" and i > 0 and pat[i - 1] == "let":
+                        continue
+                    alt.append(tk)
+                    if tk == "let" and not (i + 1 < len(pat) and pat[i + 1] == "mut"):
+                        alt.append("mut")
+                hits = _find_subseq(toks, body_lo, end, alt)
+                if hits:
+                    pat = alt
             if a["nth"] is not None:
                 if len(hits) < a["nth"]:
                     rec.lost_hints.append("proof hint at %r[%d] (%d matches)" % (a["anchor"], a["nth"], len(hits))); continue
@@ -497,6 +514,7 @@ class Emitter:
             # signature + contract only.  Verus never looks into an external_body.
             edits = [e for e in edits if e[1] <= toks[bo].start or e[3] in ("sig",)]
             edits.append((toks[bo].start, toks[end].end, "{ unimplemented!() }", "dropbody"))
+            rec.body_dropped = True
         # ---- apply edits
         edits.sort(key=lambda e: (e[0], e[1]))
         for a, b in zip(edits, edits[1:]):
@@ -531,7 +549,7 @@ def check_faithful(emitter, out_text):
     problems = []
     lines = out_text.split("\n")
     for rec in emitter.records:
-        if getattr(rec, "demoted", False):
+        if getattr(rec, "demoted", False) or getattr(rec, "body_dropped", False):
             continue
         seg = "\n".join(lines[rec.out_first - 1:rec.out_last])
         # drop ghost
